@@ -139,6 +139,19 @@ def main() -> int:
         if r["error"] is not None:
             errors.append((r["cell"], r["error"]["message"]))
 
+    # coverage-guided campaigns (thorough tier only; cells listed by the module in FUZZ_CELLS)
+    fuzz_stats: dict = {}
+    fuzz_cells = [fc for fc in getattr(mod, "FUZZ_CELLS", []) if fnmatch.fnmatchcase(fc[0], a.cell)]
+    if a.tier == "thorough" and fuzz_cells:
+        fuzz_stats = run_fuzz(core, prop, fuzz_cells, seed, a.jobs, a.scale)
+        for cid, st_ in fuzz_stats.items():
+            if st_.get("violation"):
+                violations.append((cid, st_["violation"]["replay"], "[atheris] " + st_["violation"]["message"]))
+            if st_.get("error"):
+                errors.append((cid, "fuzz campaign: " + st_["error"]))
+            for k, v in st_.get("known", {}).items():
+                known_hits[k] = known_hits.get(k, 0) + v
+
     wall = time.monotonic() - t0
     evaluations = sum(pc["evaluations"] for pc in per_cell.values()) + reg_run
     distinct_nt = sum(len(pc["nt"]) for pc in per_cell.values())
@@ -185,6 +198,7 @@ def main() -> int:
                 "known_findings_observed": {k: known_hits[k] for k in sorted(known_hits)},
                 "known_finding_samples": {k: known_samples[k] for k in sorted(known_samples)},
                 "harness_errors": len(errors),
+                "fuzz_campaigns": fuzz_stats,
             },
             "assumptions": list(getattr(mod, "ASSUMPTIONS", [])),
             "wall_s": round(wall, 2),
@@ -211,6 +225,45 @@ def main() -> int:
     if errors:
         return 2
     return 0
+
+
+def run_fuzz(core, prop, fuzz_cells, seed, jobs, scale):
+    """one `python -m vf.fuzz` subprocess per listed cell, at most `jobs` at a time"""
+    out_dir = core.scratch_dir()
+    pending = list(fuzz_cells)
+    running = []
+    stats = {}
+    while pending or running:
+        while pending and len(running) < jobs:
+            cid, runs = pending.pop(0)
+            out = os.path.join(out_dir, "fuzz_" + core.h64(cid) + ".json")
+            p = subprocess.Popen(
+                [sys.executable, "-m", "vf.fuzz", prop, cid, "--runs", str(max(1000, int(runs * scale))), "--seed",
+                 str(core.derive_seed(seed, prop, cid, "fuzz") % (2**31)), "--out", out],
+                cwd=core.ROOT, stdout=subprocess.DEVNULL, stderr=subprocess.DEVNULL,
+            )
+            running.append((p, cid, out, time.monotonic()))
+        still = []
+        for p, cid, out, t0 in running:
+            rc = p.poll()
+            if rc is None:
+                if time.monotonic() - t0 > 3600:
+                    p.kill()
+                    stats[cid] = {"error": "campaign exceeded 3600 s (inconclusive)"}
+                else:
+                    still.append((p, cid, out, t0))
+                continue
+            try:
+                with open(out) as f:
+                    st_ = json.load(f)
+            except Exception:  # noqa: BLE001
+                st_ = {}
+            if rc not in (0, 77):
+                st_["error"] = f"exit code {rc}"
+            stats[cid] = st_
+        running = still
+        time.sleep(0.2)
+    return stats
 
 
 if __name__ == "__main__":
